@@ -29,3 +29,20 @@ Definition check_2008 (fs : list field) : verdict :=
     end
   | _ => VBad 99 []
   end.
+
+(* 2011. SkipAllElements / SkipAllElementsOf: fields: entry (0 SkipAllElements(num, packed), 1 SkipAllElementsOf(desc)),
+   field number, packed, element wire type the entry point uses (0 for entry 0; from the ABSTRACT schema for entry 1),
+   bytes, code (0 nil, 1 error, 3 panic), count, cursor after the call. Judged by ProtoSkipAll.skip_all_elements:
+   exact count and exact number of bytes consumed, or an error. *)
+From DG Require Import ProtoMsg ProtoSkipAll.
+Definition check_2011 (fs : list field) : verdict :=
+  match fs with
+  | [FZ _; FZ num; FZ pk; FZ ewt; FB bs; FZ err; FZ cnt; FZ rd] =>
+    if negb (bytes_okb bs) then VSkip else
+    if err =? 3 then VBad 3 [] else
+    match skip_all_elements num (negb (pk =? 0)) ewt bs with
+    | Some (c, m) => vand (expect 1 (err =? 0) [FZ c; FZ m]) (vand (expect 2 (cnt =? c) [FZ c]) (expect 4 (rd =? m) [FZ m]))
+    | None => expect 5 (negb (err =? 0)) []
+    end
+  | _ => VBad 99 []
+  end.
